@@ -30,12 +30,11 @@ theorem build3_data_size (shape : List ℕ) (axis m : ℕ) (f : ℕ → ℕ → 
   rw [h1, h2, h3]
 
 /-- Sizes of the object `split` returns for one value of a periodic direction (same hypotheses as
-    `C07_split_periodic_partial`): the number of bases is unchanged and the control-point array has
+    `C07_split_periodic_partial`, every valid periodic basis): the number of bases is unchanged and the control-point array has
     the length its shape demands. -/
 theorem split_periodic_single_sizes (o : Splipy.Obj K) (dir : ℕ) (hdir : dir < o.bases.size)
     (hax : dir < o.cps.shape.length) (hv : (o.basis dir).Valid) (k : ℕ)
     (hk : (o.basis dir).periodic = (k : Int))
-    (hguard : (o.basis dir).order + k ≤ (o.basis dir).numFunctions)
     (hshape : o.cps.shape.getD dir 0 = (o.basis dir).numFunctions) {tol x0 : K} (htol : 0 < tol)
     (hx : (o.basis dir).start ≤ x0 ∧ x0 < (o.basis dir).stop)
     (hexR : ∀ i, i < (o.basis dir).knots.size →
@@ -44,9 +43,9 @@ theorem split_periodic_single_sizes (o : Splipy.Obj K) (dir : ℕ) (hdir : dir <
       (o.basis dir).kn i < x0 - tol ∨ x0 ≤ (o.basis dir).kn i)
     (op : Splipy.Obj K) (hop : o.split tol [x0] dir = .ok (.single op)) :
     op.bases.size = o.bases.size ∧ op.cps.data.size = Tensor.prod op.cps.shape := by
-  have hMult := hMult_of_exact o dir hdir hv k hk hguard hshape htol hx hexR hexL
+  have hMult := hMult_of_exact_all o dir hdir hv k hk hshape htol hx hexR hexL
   obtain ⟨so, C, m, hso, hR, hother, hrat, hshp, hout, hinn, hfib, hbases⟩ :=
-    splitInsert_single_periodic o dir hdir hax hv k hk hguard hshape tol x0 hx
+    splitInsert_single_periodic_all o dir hdir hax hv k hk hshape tol x0
   obtain ⟨hM1, hM2⟩ := hMult so hso
   set b := o.basis dir with hb
   set b' := so.basis dir with hb'
@@ -186,9 +185,9 @@ theorem basis_eq_getElem (o : Splipy.Obj K) (d : ℕ) (hd : d < o.bases.size) : 
   simp [Obj.basis, Array.getD, hd]
 
 /-- A well-formed object with exactly one periodic direction `dir` (continuity `k`), under the
-    guards of `C07_split_periodic_partial` for the split value `start`:
-    `guard` is `n ≥ p + k`; `sepR`/`sepL` say that no knot other than copies of `start` lies within
-    the tolerance of `start`. -/
+    tolerance separation of `C07_split_periodic_partial` for the split value `start`:
+    `sepR`/`sepL` say that no knot other than copies of `start` lies within the tolerance of `start`.
+    (No lower bound on the number of functions: bases with `n < p + k` are included.) -/
 structure PeriodicWF (tol : K) (o : Splipy.Obj K) (dir k nc : ℕ) : Prop where
   pardim : o.bases.size = 1 ∨ o.bases.size = 2 ∨ o.bases.size = 3
   dir_lt : dir < o.bases.size
@@ -197,7 +196,6 @@ structure PeriodicWF (tol : K) (o : Splipy.Obj K) (dir k nc : ℕ) : Prop where
   valid : ∀ d, d < o.bases.size → (o.basis d).Valid
   periodic_dir : (o.basis dir).periodic = (k : Int)
   others : ∀ d, d < o.bases.size → d ≠ dir → (o.basis d).periodic = -1
-  guard : (o.basis dir).order + k ≤ (o.basis dir).numFunctions
   sepR : ∀ i, i < (o.basis dir).knots.size →
     (o.basis dir).kn i ≤ (o.basis dir).start ∨ (o.basis dir).start + tol ≤ (o.basis dir).kn i
   sepL : ∀ i, i < (o.basis dir).knots.size →
@@ -231,7 +229,7 @@ theorem seam_open {tol : K} (htol : 0 < tol) {o : Splipy.Obj K} {dir k nc : ℕ}
   have hx : (o.basis dir).start ≤ (o.basis dir).start ∧ (o.basis dir).start < (o.basis dir).stop :=
     ⟨le_refl _, (h.valid dir hd).start_lt_stop⟩
   obtain ⟨hsz, hdata⟩ := split_periodic_single_sizes o dir hd h.hax (h.valid dir hd) k h.periodic_dir
-    h.guard h.hshape htol hx h.sepR h.sepL op hsplit
+    h.hshape htol hx h.sepR h.sepL op hsplit
   have hopnp : ∀ d, d < o.bases.size → (op.basis d).periodic = -1 := by
     intro d hdd
     by_cases hdd' : d = dir
